@@ -2,6 +2,7 @@ package checks
 
 import (
 	"fmt"
+	jd "github.com/josephburnett/jd/v2"
 	"strings"
 	"time"
 
@@ -67,6 +68,9 @@ func init() {
 			for _, con := range []string{"none", "SET", "MULTISET", "replace:none", "replace:SET"} {
 				pairs(e, "c06live:"+con, "live/"+con, lv, lv)
 			}
+			// an option that changes nothing for these documents (integers, precision 0.001) must not change the diff
+			pairs(e, "c06prec", "A5x123/PRECISION:0.001", Arr(5, "123"), Arr(5, "123"))
+			pairs(e, "c06prec", "A2cont/PRECISION:0.001", Arr(2, "cont"), Arr(2, "cont"))
 			for _, l := range c06Spaces(tier) {
 				pairs(e, "c06", l.Name, l.A, l.B)
 			}
@@ -301,6 +305,9 @@ func runC06(c *engine.Case) engine.Result {
 			}
 		}
 		d := na.Diff(nb)
+		if c.Kind == "c06prec" {
+			d = na.Diff(nb, jd.Precision(0.001))
+		}
 		res.Transitions++
 		text = d.Render()
 		hs, err := impl.Hunks(d)
